@@ -2,6 +2,7 @@
 C01, C05, C16, C17, C18, C19, C20 (CLI stages are driven by vh as well)."""
 import json
 import os
+import shutil
 
 from common import VARIANT, Result, asan_stage, build, finish, run_vh, run_vh_miri, seed
 
@@ -129,6 +130,8 @@ def c05(tier):
         r.merge_vh(run_vh("c05", tier, stage="lib", cases=3000000 if th else 300000), "release-lib:")
         r.merge_vh(run_vh("c05", tier, stage="lib", profile="debug", cases=500000 if th else 60000, sd=dseed()), "debug-lib:")
     r.merge_vh(run_vh("c05", tier, stage="cli", cases=5000 if th else 600), "cli:")
+    if not VARIANT:
+        slow_sink_stage(r, 20 if th else 4)
     r.assumptions = ASSUME_LIB + ["no address-space limit is imposed here (see C20)"]
     if tier == "thorough":
         miri_stage(r, "c05", "C05")
@@ -162,6 +165,117 @@ def c19(tier):
     finish(r, tier)
 
 
+def slow_sink_stage(r, ncases):
+    """`copia patch ... -o FIFO` with a reader that stalls: success must still mean that every byte of the verified
+    output reached the sink (a runtime that gives up on writes still in flight would exit 0 on a truncated stream)."""
+    import subprocess
+    import tempfile
+    import threading
+    import time
+    from common import COPIA, SplitMix, seed, workdir
+    wd = workdir("c05fifo")
+    rng = SplitMix.derive(seed(), "c05fifo", 0)
+    for case in range(ncases):
+        d = tempfile.mkdtemp(dir=wd)
+        basis = rng.bytes(rng.pick([40_000, 300_000]))
+        tail = rng.bytes(rng.pick([200_000, 540_000, 2_200_000]))
+        source = basis + tail if rng.chance(1, 2) else tail + basis
+        open(d + "/basis", "wb").write(basis)
+        open(d + "/source", "wb").write(source)
+        env = dict(os.environ, RUST_LOG="off", HOME=d)
+        ok = subprocess.run([COPIA, "signature", "basis", "-o", "b.sig"], cwd=d, env=env, capture_output=True).returncode == 0
+        ok = ok and subprocess.run([COPIA, "delta", "source", "b.sig", "-o", "s.delta"], cwd=d, env=env, capture_output=True).returncode == 0
+        if not ok:
+            r.count("slow-sink:setup_failed")
+            continue
+        os.mkfifo(d + "/out.fifo")
+        got = bytearray()
+
+        def reader():
+            with open(d + "/out.fifo", "rb") as f:
+                got.extend(f.read(65536))
+                time.sleep(0.5)
+                while True:
+                    b = f.read(100_000)
+                    if not b:
+                        break
+                    got.extend(b)
+                    time.sleep(0.15)
+
+        t = threading.Thread(target=reader, daemon=True)
+        t.start()
+        try:
+            p = subprocess.run([COPIA, "patch", "basis", "s.delta", "-o", "out.fifo"], cwd=d, env=env, capture_output=True, timeout=120)
+        except subprocess.TimeoutExpired:
+            r.inconclusive += 1
+            continue
+        t.join(60)
+        r.evaluations += 1
+        r.count("slow-sink:runs")
+        if p.returncode == 0 and bytes(got) != source:
+            r.violation("C05|cli|exit0-but-the-sink-received-other-bytes|slow-fifo-reader", {"case": case, "received": len(got), "expected": len(source), "prefix_equal": source.startswith(bytes(got)), "stdout": p.stdout.decode("utf-8", "replace")[-200:]})
+        elif p.returncode < 0:
+            r.violation("C05|cli|died-by-signal-%d|slow-fifo-reader" % -p.returncode, {"case": case})
+        r.distinct.add("slow-sink|%s" % ("exit0" if p.returncode == 0 else "nonzero"))
+        shutil.rmtree(d, ignore_errors=True)
+    shutil.rmtree(wd, ignore_errors=True)
+
+
+def dev_profile_traced_stage(r, ncases):
+    """The dev-profile CLI (overflow checks on, panic = abort) with the global `--trace-output` flag, which adds a
+    reporting layer that reads header fields nothing else looks at: `copia patch` / `copia delta` on files whose
+    size and count fields are hostile must still end with a reported error or a correct result, never a signal."""
+    import struct
+    import subprocess
+    import tempfile
+    from common import COPIA_DEV, SplitMix, seed, workdir
+    build("cli-dev")
+    wd = workdir("c20dev")
+    rng = SplitMix.derive(seed(), "c20dev", 0)
+    vals = [0, 1, (1 << 20) + 1, 1 << 32, 18_446_744_073, 18_446_744_074, 1 << 40, 1 << 63, (1 << 64) - 1]
+    for case in range(ncases):
+        d = tempfile.mkdtemp(dir=wd)
+        basis = rng.bytes(rng.pick([5000, 70000]))
+        source = basis[: len(basis) // 2] + rng.bytes(300) + basis[len(basis) // 2:]
+        open(d + "/basis", "wb").write(basis)
+        open(d + "/source", "wb").write(source)
+        env = dict(os.environ, HOME=d)
+        env.pop("RUST_LOG", None)  # the reporting layer only sees spans that the log filter lets through
+        ok = subprocess.run([COPIA_DEV, "signature", "basis", "-o", "b.sig"], cwd=d, env=env, capture_output=True).returncode == 0
+        ok = ok and subprocess.run([COPIA_DEV, "delta", "source", "b.sig", "-o", "s.delta"], cwd=d, env=env, capture_output=True).returncode == 0
+        if not ok:
+            r.count("dev-traced:setup_failed")
+            continue
+        sig = open(d + "/b.sig", "rb").read()
+        delta = open(d + "/s.delta", "rb").read()
+        files = []
+        for v in vals:
+            for name, off in (("source_size", 4), ("basis_size", 12), ("op_count", 20)):
+                files.append(("delta", "%s=%d" % (name, v), delta[:off] + struct.pack("<Q", v) + delta[off + 8:]))
+            for name, off in (("file_size", 8), ("block_count", 16)):
+                files.append(("sig", "%s=%d" % (name, v), sig[:off] + struct.pack("<Q", v) + sig[off + 8:]))
+        for kind, field, data in files:
+            fn = "h.delta" if kind == "delta" else "h.sig"
+            open(os.path.join(d, fn), "wb").write(data)
+            argv = [COPIA_DEV, "--trace-output", "t.ndjson"] + (["patch", "basis", fn, "-o", "o.out"] if kind == "delta" else ["delta", "source", fn, "-o", "o.delta"])
+            try:
+                p = subprocess.run(["bash", "-c", "ulimit -c 0; ulimit -v 2097152; exec \"$0\" \"$@\""] + argv, cwd=d, env=dict(env, MALLOC_ARENA_MAX="2"), capture_output=True, timeout=60)
+            except subprocess.TimeoutExpired:
+                r.inconclusive += 1
+                continue
+            r.evaluations += 1
+            r.count("dev-traced:runs[%s]" % kind)
+            err = p.stderr.decode("utf-8", "replace")
+            cls = field.split("=")[0]
+            if p.returncode < 0:
+                r.violation("C20|cli-dev-traced|copia-%s|signal-%d|%s:%s" % ("patch" if kind == "delta" else "delta", -p.returncode, kind, cls), {"field": field, "stderr": err[-400:], "case": case})
+            elif p.returncode != 0 and "Error" not in err and "error" not in err:
+                r.violation("C20|cli-dev-traced|nonzero-without-error-line|%s:%s" % (kind, cls), {"field": field, "code": p.returncode, "stderr": err[-300:]})
+            r.distinct.add("dev-traced|%s:%s|%s" % (kind, cls, "signal" if p.returncode < 0 else ("exit0" if p.returncode == 0 else "error")))
+        shutil.rmtree(d, ignore_errors=True)
+    shutil.rmtree(wd, ignore_errors=True)
+
+
 def c20(tier):
     build("vh", "vh-debug", "cli", "shim")
     r = Result("C20", "exploration", "one evaluation = one value round trip (Message/Codec via 1-7 byte reads/FrameHeader/bincode files), one decode call on arbitrary or mutated bytes inside an allocation-counting scope + catch_unwind (verdict: no panic, no single request > 16 MiB + 4 KiB, header accepted <=> magic & version & type & length predicate), or one `copia delta|patch` run on a hostile file under RLIMIT_AS = 2 GiB and a 60 s watchdog; distinct non-trivial = distinct (decoder or message kind, mutation class or corrupted field, outcome)")
@@ -170,6 +284,8 @@ def c20(tier):
         r.merge_vh(run_vh("c20", tier, stage="lib", cases=60000 if th else 5000, alloc_abort="C20|decode|single-allocation-request-above-1GiB-aborted-the-process"), "release-lib:")
         r.merge_vh(run_vh("c20", tier, stage="lib", profile="debug", cases=10000 if th else 1000, sd=dseed(), alloc_abort="C20|decode|single-allocation-request-above-1GiB-aborted-the-process"), "debug-lib:")
     r.merge_vh(run_vh("c20", tier, stage="cli"), "cli:")
+    if not VARIANT:
+        dev_profile_traced_stage(r, 6 if th else 2)
     r.assumptions = ASSUME_LIB + ["RLIMIT_AS = 2 GiB is far above what a valid run on these inputs needs; watchdog expiry is inconclusive, never a violation"]
     if tier == "thorough":
         miri_stage(r, "c20", "C20")
